@@ -236,23 +236,12 @@ theorem calc_erase_strong {c c' : Ctx} (H : CalcNorm c c') (hid : IdStable c c')
             have hmem : ∀ extra : List (List RField),
                 (r1 ++ extra.flatten).map eraseField = (r1' ++ extra.flatten).map eraseField := fun extra => by
               rw [List.map_append, List.map_append, h1]
-            cases r1 with
-            | nil =>
-              cases r1' with
-              | nil =>
-                simp only []
-                split
-                · exact hrest _ _ _ (by simp only [List.map_cons, h2])
-                · apply ORel.bind_same; intro extra
-                  exact hrest _ _ _ (by simp only [List.map_append, renderType_erase c c' _ (hmem extra), h2])
-              | cons y ys => simp [EF] at h1
-            | cons x xs =>
-              cases r1' with
-              | nil => simp [EF] at h1
-              | cons y ys =>
-                simp only []
-                apply ORel.bind_same; intro extra
-                exact hrest _ _ _ (by simp only [List.map_append, renderType_erase c c' _ (hmem extra), h2])
+            -- the decision (`pushedAny c.q vt mine`, the aliases) is the same on both sides
+            simp only []
+            split
+            · exact hrest _ _ _ (by simp only [List.map_cons, h2])
+            · apply ORel.bind_same; intro extra
+              exact hrest _ _ _ (by simp only [List.map_append, renderType_erase c c' _ (hmem extra), h2])
     · intro sname pfx vt vsels
       cases vsels with
       | nil => unfold calcVariantSels; exact ORel.pure ⟨rfl, rfl, rfl⟩
@@ -585,7 +574,7 @@ theorem calc_noEnum (c : Ctx) : ∀ fuel,
             simp only at h2 h3
             simp only []
             split
-            · rename_i a
+            · rename_i a _
               exact hrest _ _ (NoEnum.cons (h3 a (by simp)) h2)
             · apply OAll.bind_any; intro extra
               exact hrest _ _ ((renderType_noEnum c _ _ _).append h2)
